@@ -190,3 +190,45 @@ def att_const_ok(year_idx: int, doy: int, ms: int, doy2: int, ms2: int) -> bool:
             c = _att_diff(YEARS[0], doy, ms)
             ok = ok & (a[0] == b[0]) & (a[1] == b[1]) & (a[0] == a[1]) & (a[0] == c[0])
     return ok
+
+
+# ---- the LIVE microsecond adapter of the level 1.1 line record: its result depends on the current line only (no state kept between calls)
+
+
+def _live_ydus():
+    from ceos_alos2.sar_image.signal_data import signal_data_record
+
+    found = []
+
+    def walk(con):
+        if isinstance(con, D.DatetimeYdus):
+            found.append(con)
+        for sub in getattr(con, "subcons", []) or []:
+            walk(sub)
+        if hasattr(con, "subcon"):
+            walk(con.subcon)
+
+    walk(signal_data_record)
+    return found
+
+
+LIVE_YDUS = _live_ydus()
+ALL_PAIRS = bool(__import__("json").loads(__import__("os").environ.get("VH_PARAMS") or "{}").get("all_pairs"))
+
+
+def ydus_live_ok(us1: int, us2: int, i: int, j: int) -> bool:
+    """
+    pre: 0 <= us1 < 86400000000 and 0 <= us2 < 86400000000 and 0 <= i < len(REFS) and 0 <= j < len(REFS)
+    pre: ALL_PAIRS or j == (i + 1) % len(REFS)
+    post: _
+    """
+    ok = len(LIVE_YDUS) >= 1
+    for ad in LIVE_YDUS:
+        # two consecutive lines (or files) with different acquisition dates through the same adapter object
+        for (k, us) in ((i, us1), (j, us2), (i, us2)):
+            ctx = {"sensor_acquisition_date": REF_OBJS[k]}
+            ctx = type("Ctx", (dict,), {"__getattr__": dict.__getitem__})(ctx)
+            got = ad._decode(us, ctx, None)
+            r = REFS[k]
+            ok = ok & (_us_since_epoch(got) == _days_from_civil(r[0], r[1], r[2]) * 86400 * 10**6 + us)
+    return ok
